@@ -751,6 +751,35 @@ class ObjFn(Fn):
                     f' (s_for_list (fun l w => {self.fld("aug__tmp")} l) {self.setter(v)} {body}))')
         return super().stmt(st)
 
+    def loop_stable(self):
+        """for a method with exactly one `for` loop: the predicate `f cannot be changed by the locals the loop assigns`"""
+        loops = [n_ for n_ in ast.walk(self.fn) if isinstance(n_, ast.For)]
+        if len(loops) != 1:
+            return []
+        assigned = []
+
+        def add(v):
+            if v in self.locals and v not in assigned:
+                assigned.append(v)
+        if isinstance(loops[0].target, ast.Name):
+            add(loops[0].target.id)
+        for node in ast.walk(loops[0]):
+            if isinstance(node, (ast.Assign, ast.AugAssign)):
+                tgs = node.targets if isinstance(node, ast.Assign) else [node.target]
+                for t in tgs:
+                    if isinstance(t, ast.Name):
+                        add(t.id)
+                    elif isinstance(t, ast.Attribute) and isinstance(t.value, ast.Name) and t.value.id == 'self':
+                        add('self')
+                if isinstance(node, ast.AugAssign):
+                    add('aug__tmp')
+            if isinstance(node, ast.Call) and self.is_method_call(node):
+                add('self')
+            if isinstance(node, ast.For) and node is not loops[0]:
+                return []
+        return [f'Definition {gname(self.name, self.prefix)}_loop_stable (f : L_{self.short} -> pyval) : Prop :=\n  '
+                + ' /\\ '.join(f'(forall l v, f ({self.setter(v)} l v) = f l)' for v in assigned) + ' /\\ True.']
+
     def emit(self):
         body = self.block(self.fn.body)
         params = ' '.join(f'(a_{p} : pyval)' for p in self.params)
@@ -846,6 +875,8 @@ def emit_gpsd_v(path):
          'Open Scope N_scope.', '']
     for f in fns:
         L += f.record()
+    for f in fns:
+        L += f.loop_stable()
     L += ['', 'Section G.', 'Context {E : Type} (B : backend E) (sk : list N).', 'Notation fres := (@fres E).', '']
     for f in fns:
         L.append(f.emit())
